@@ -648,6 +648,7 @@ func buildContainer(t TableSpec, pr *probe) (c *restful.Container, kept TableSpe
 		}
 		ws := new(restful.WebService)
 		ws.Path(sv.Root)
+		ws.SetDynamicRoutes(true) // routes may be removed later (domain cors); serving is the same either way
 		for _, rs := range sv.Routes {
 			rs := rs
 			b := ws.Method(rs.Method).Path(rs.Rel)
